@@ -81,4 +81,11 @@ def chisq (A W : Mat) (y p : List Rat) : Rat :=
   let r := List.zipWith (· - ·) y (mulVec A p)
   dotR r (mulVec W r)
 
+/-- implicit-function sensitivities: the matrix `X` with `H X + M = 0`, column by column, each column returned
+    only after the equation has been checked exactly; `none` when `H` is singular -/
+def iftSens (H M : Mat) : Option Mat :=
+  match (transpose M).mapM (fun col => solveChecked H (col.map (fun v => -v))) with
+  | none => none
+  | some cols => some (transpose cols)
+
 end PV.Gls
